@@ -1,7 +1,8 @@
 /* hist_driver.c -- C13: executes registration/violation histories on real threads (one fresh
  * process per history, operations serialised in history order) and prints what came back.
  * History line:  <id> <op>...   ops: S<k><t><a> set_*, T<k><t><a> thrd_set_*, V<k><t> violation,
- *   P<p><c> thread p creates thread c.   k: s|m, t,p,c: thread digit (0 = main), a: n|1|2|3
+ *   P<p><c> thread p creates thread c, C<j><t> thread t makes the valid library call number j (not a registration).
+ *   k: s|m, t,p,c: thread digit (0 = main), a: n|1|2|3
  * Output: <id> <r>...  r: N (NULL) | D (ignore_handler_s) | U<i> | - (no value) */
 #define _GNU_SOURCE
 #include <stdio.h>
@@ -47,6 +48,22 @@ static void exec_op(int self) {
         char b[4]; last_ran = 0;
         if (k == 's') _strcpy_s_chk(NULL, 4, "x", BOS_UNKNOWN); else _memcpy_s_chk(NULL, 4, b, 1, BOS_UNKNOWN, BOS_UNKNOWN);
         if (last_ran == -1) strcpy(cur_res, "D"); else if (last_ran > 0) sprintf(cur_res, "U%d", last_ran); else strcpy(cur_res, "?");
+    } else if (o[0] == 'C') {
+        /* successful calls of entry points that use other entry points internally; none of them may touch the registrations */
+        char b[128]; wchar_t wb[64]; size_t len = 0; int ind = 0; errno_t e = 0; rsize_t dm = 0;
+        switch (k) {
+        case '0': { wchar_t w1[8] = L"Hello", w2[8] = L"hELLO"; e = wcsicmp_s(w1, 8, w2, 8, &ind); if (e || ind) abort(); } break;
+        case '1': e = sprintf_s(b, 64, "%ls %d", L"ab", 5) < 0; break;
+        case '2': e = strerror_s(b, 100, 2); if (e) abort(); break;
+        case '3': e = wcsfc_s(wb, 32, L"Stra\u00dfe", &len); if (e) abort(); break;
+        case '4': e = wcsnorm_s(wb, 32, L"e\u0301a", WCSNORM_NFC, &len); if (e) abort(); break;
+        case '5': e = getenv_s(&len, b, 0, "PATH"); break;
+        case '6': { char s[] = "a,b"; char *p = NULL; dm = 4; (void)strtok_s(s, &dm, ",", &p); (void)strtok_s(NULL, &dm, ",", &p); } break;
+        case '7': { int v[5] = {3, 1, 2, 5, 4}; e = 0; (void)strcpy_s(b, 8, "ab"); (void)strcat_s(b, 8, "cd"); (void)memset_s(v, sizeof v, 0, sizeof v); } break;
+        case '8': { wchar_t w1[4] = L"a10", w2[4] = L"A9"; e = wcsnatcmp_s(w1, 4, w2, 4, &ind); if (e) abort(); } break;
+        case '9': { char h[8] = "abcDEF", nd[4] = "def"; char *r = NULL; e = strcasestr_s(h, 8, nd, 4, &r); if (e || r != h + 3) abort(); } break;
+        }
+        strcpy(cur_res, e == 0 ? "-" : "-");
     } else if (o[0] == 'P') {
         int c = o[2] - '0'; long cl = c;
         pthread_create(&th[c], NULL, worker, (void *)cl);
